@@ -84,6 +84,10 @@ RANDOM_CFGS = {
     "r_buffer_lifo": (dict(kind="buffer", mode="LIFO", cap=3, fdelay=1, transit=0, trig=0), dict(delays=(0, 2)), 2, True),
     "r_fleet": (dict(kind="fleet", mode="FIFO", cap=3, fdelay=3, transit=1, trig=0), {}, 2, True),
     "r_fleet_t0": (dict(kind="fleet", mode="FIFO", cap=4, fdelay=2, transit=0, trig=0), dict(prios=(0, 1)), 2, False),
+    "b_conveyor_acc": (dict(kind="conveyor", mode="FIFO", cap=3, fdelay=1, transit=0, trig=0, slot=2, acc=1), {}, 2, True),
+    "b_conveyor_nonacc": (dict(kind="conveyor", mode="FIFO", cap=4, fdelay=1, transit=0, trig=0, slot=1, acc=0), {}, 2, True),
+    "b_slotted_acc": (dict(kind="slotted", mode="FIFO", cap=3, fdelay=1, transit=0, trig=0, slot=2, acc=1), {}, 2, True),
+    "b_slotted_nonacc": (dict(kind="slotted", mode="FIFO", cap=2, fdelay=1, transit=0, trig=0, slot=3, acc=0), {}, 2, True),
     "r_fleet_store": (dict(kind="fleet", mode="FIFO", cap=2, fdelay=4, transit=2, trig=0), dict(prios=(0, 1)), 2, False),
 }
 
@@ -105,7 +109,7 @@ def _random_one(args):
             tr["src"] = "random-crash:%s:%s" % (type(ex).__name__, ex)
         nev += len(tr["ev"])
         traces.append(tr)
-    common.save_json(os.path.join(outdir, "rand_%s.json" % name), traces)
+    common.save_json(os.path.join(outdir, ("rbelt_%s.json" if name.startswith("b_") else "rand_%s.json") % name), traces)
     return {"name": name, "traces": len(traces), "events": nev,
             "crashes": [t["src"] for t in traces if t["src"].startswith("random-crash")][:3]}
 
@@ -199,6 +203,11 @@ def _legC_one(args):
     invs, props = [], []
     if fname.startswith("prq_"):
         invs, props = ["T_WF"], ["T_C05_GrantOrder", "T_TimeMonotone"]
+    elif fname.startswith("rbelt_"):
+        # belt stores: the ledger-level clauses that do not need the belt's admission geometry
+        invs = ["T_WF", "T_C01_Cap", "T_C01_Occupancy", "T_C02_Backed", "T_C02_ReadyInside"]
+        props = ["T_TimeMonotone", "T_C01_PutHonoured", "T_C02_GetFresh", "T_C02_GetHonoured", "T_C02_NoInvent", "T_C05_GrantOrder",
+                 "T_C07_Reject", "T_C07_Accept"]
     else:
         for k, (i, p) in tracecheck.T_STORE.items():
             invs += i
@@ -218,7 +227,7 @@ def leg_c(d):
     res = common.load_json(p)
     if res is not None:
         return res
-    files = sorted(f for f in os.listdir(d) if f.startswith(("walk_", "rand_", "prq_")) and f.endswith(".json"))
+    files = sorted(f for f in os.listdir(d) if f.startswith(("walk_", "rand_", "prq_", "rbelt_")) and f.endswith(".json"))
     with mp.Pool(4) as pool:
         outs = pool.map(_legC_one, [(f, d) for f in files])
     res = {o["file"]: o for o in outs}
